@@ -14,8 +14,11 @@ VERIF = os.path.dirname(os.path.dirname(os.path.abspath(__file__)))
 ENV = dict(os.environ, GOFLAGS="-mod=mod", GOPROXY="off", VERIF_EVIDENCE_DIR=os.path.join(os.path.dirname(os.path.dirname(os.path.abspath(__file__))), ".work", "seed-evidence"))
 ENV.pop("GOTOOLCHAIN", None)
 
-def sh(cmd, cwd, timeout=1800):
-    p = subprocess.run(cmd, cwd=cwd, env=ENV, shell=isinstance(cmd, str), capture_output=True, text=True, timeout=timeout)
+def sh(cmd, cwd, timeout=1800, env=None):
+    e = dict(ENV)
+    if env:
+        e.update({k: v for k, v in env.items() if k in ("VERIF_REPO",)})
+    p = subprocess.run(cmd, cwd=cwd, env=e, shell=isinstance(cmd, str), capture_output=True, text=True, timeout=timeout)
     return p.returncode, p.stdout + p.stderr
 
 def verify(wt, sid, regex, pkg):
@@ -73,28 +76,29 @@ def verify(wt, sid, regex, pkg):
     return 0
 
 def detect(sid, checks):
+    repo = os.environ.get("SEED_REPO", "/repo")
     d = os.path.join(VERIF, "seeded", sid)
     meta = json.load(open(os.path.join(d, "meta.json")))
     if not checks:
         checks = [meta.get("property", sid[:3])]
-    rc, out = sh(["git", "status", "--short"], "/repo")
+    rc, out = sh(["git", "status", "--short"], repo)
     if out.strip():
-        print("/repo is not clean:", out); return 2
-    rc, out = sh(["git", "apply", os.path.join(d, "patch.diff")], "/repo")
+        print(repo + " is not clean:", out); return 2
+    rc, out = sh(["git", "apply", os.path.join(d, "patch.diff")], repo)
     if rc != 0:
-        print("patch does not apply to /repo:", out); return 2
+        print("patch does not apply to " + repo + ":", out); return 2
     results = {}
     try:
         for c in checks:
             t0 = time.time()
-            rc, out = sh([os.path.join(VERIF, "vcheck"), "run", c, "--tier", "quick"], VERIF)
+            rc, out = sh([os.path.join(VERIF, "vcheck"), "run", c, "--tier", "quick"], VERIF, env=dict(os.environ, VERIF_REPO=repo))
             viol = [l for l in out.splitlines() if l.startswith("VIOLATION")]
             clauses = [l.strip() for l in out.splitlines() if l.strip().startswith("clause=")]
             results[c] = {"exit": rc, "violations": len(viol), "clauses": clauses[:6], "wall_s": round(time.time() - t0, 1)}
             print(c, "exit", rc, "violations", len(viol), clauses[:3])
     finally:
-        sh(["git", "checkout", "--", "."], "/repo")
-        sh(["git", "clean", "-fdq", "internal", "pkg"], "/repo")
+        sh(["git", "checkout", "--", "."], repo)
+        sh(["git", "clean", "-fdq", "internal", "pkg"], repo)
     meta.setdefault("detection", {}).update(results)
     json.dump(meta, open(os.path.join(d, "meta.json"), "w"), indent=1)
     return 0
